@@ -76,6 +76,8 @@ for _n in (7, 8, 9):
       % ', '.join('x%d NULL' % i for i in range(_n - 1)), feats={'seq', 'ext', 'manyadd'},
       tie=r'x\d+$')
 T('set-basic', 'A ::= SET { a INTEGER (0..7), b BOOLEAN, c NULL OPTIONAL }', feats={'basic', 'set'})
+T('set-opt-middle', 'A ::= SET { a INTEGER (0..7), b BOOLEAN OPTIONAL, c INTEGER (0..7) DEFAULT 7, d NULL OPTIONAL }',
+  feats={'set', 'opt'})
 T('set-tags', 'A ::= SET { a [5] INTEGER (0..7), b [1] BOOLEAN, c [APPLICATION 0] INTEGER (0..3) }',
   feats={'set', 'tag'}, tags='IMPLICIT TAGS')
 T('set-classes', 'A ::= SET { a [0] INTEGER (0..7), b [APPLICATION 31] INTEGER (0..7), c [PRIVATE 1] BOOLEAN, d [40] NULL }',
